@@ -28,7 +28,11 @@ extern "C" void vp_thread1() {
   d->_bottom.store(off, std::memory_order_relaxed);
   int* ref[NOPS + 2]; unsigned rt = 0, rb = 0;   // reference deque: ref[rt..rb)
   for (unsigned s = 0; s < NOPS; ++s) {
+#ifdef PUSHFIRST
+    unsigned op = s < PUSHFIRST ? 0 : (unsigned)vp_range(10 + s, 0, 2);   // forces growth, then symbolic mix
+#else
     unsigned op = (unsigned)vp_range(10 + s, 0, 2);
+#endif
     if (op == 0) {
       bool ok = d->try_push(&items[s]);
       vp_assert(ok, 110);
